@@ -75,7 +75,9 @@ pub fn clone_reentered(mode: u8) {
     if mode < 2 {
         cover!(true, "UNREACHABLE: a mutable borrow was granted while clone reads the archetype");
     }
-    cover!(mode < 2 || c.r_0.len() == 2, "shared re-entry during clone succeeded");
+    if mode >= 2 {
+        cover!(c.r_0.len() == 2, "shared re-entry during clone succeeded");
+    }
     if mode >= 2 {
         unsafe { assert!(REENTER_DONE, "re-entrant shared access during clone did not run") };
         assert!(c.r_0.len() == 2 && c.r_1.len() == 1);
